@@ -324,9 +324,20 @@ class Engine:
 
 	def verify_function(self, qualname, inst_name=None, type_override=None):
 		c = self.registry.get(qualname)
+		# a target may be named through a re-export (from x import f): the name is followed to its definition on every run,
+		# so a change that rebinds the name to another function is verified against the same contract
+		target = qualname
+		try:
+			r_ = self.repo.resolve(qualname)
+			if isinstance(r_, FuncRef) and r_.qualname != qualname:
+				target = r_.qualname
+		except Unsupported:
+			pass
+		if c is None:
+			c = self.registry.get(target)
 		if c is None:
 			raise Unsupported(f'no contract for {qualname}')
-		fi = self.repo.funcinfo(qualname)
+		fi = self.repo.funcinfo(target)
 		self.cur_label = self.label_of(qualname, inst_name)
 		self.top_label = self.cur_label
 		reset_names()     # query texts of one function do not depend on what was verified before it
